@@ -45,7 +45,14 @@ func (p Proxy) serveTCP(l net.Listener, inflightRequests chan struct{}) error {
 }
 
 func (p Proxy) serveTCPConn(c net.Conn, inflightRequests chan struct{}, bpool *sync.Pool) error {
-	defer c.Close()
+	// Queries are answered asynchronously: do not close the connection under
+	// the handlers still resolving when the client stops sending (a client
+	// may shut down its writing side after its last query and keep reading).
+	var handlers sync.WaitGroup
+	defer func() {
+		handlers.Wait()
+		c.Close()
+	}()
 
 	for {
 		inflightRequests <- struct{}{}
@@ -63,7 +70,9 @@ func (p Proxy) serveTCPConn(c net.Conn, inflightRequests chan struct{}, bpool *s
 			return fmt.Errorf("query too small: %d", qsize)
 		}
 		start := time.Now()
+		handlers.Add(1)
 		go func() {
+			defer handlers.Done()
 			var err error
 			var rsize int
 			var ri resolver.ResolveInfo
